@@ -142,9 +142,12 @@ func pickLen(g *hx.Gen) int {
 	case 1:
 		g.Stat("len.zero")
 		return 0
-	case 2:
-		g.Stat("len.large")
-		return 16 * r.Range(65, 256)
+	case 2, 5:
+		g.Stat("len.over-512")
+		if r.Chance(1, 3) {
+			return r.PickInt(528, 544, 1008, 1024, 1040, 1536, 2048, 4096) // 33+ blocks: past one 32-block batch
+		}
+		return 16 * r.Range(33, 256)
 	case 3:
 		return 16
 	case 4:
